@@ -11,6 +11,13 @@ for pid in allp:
     if pid not in props.PROPS:
         continue
     P = props.PROPS[pid]
+    lean = ROOT / "lean" / "CollectionsC"
+    have_thm = (lean / "Properties" / f"{pid}.lean").exists()
+    have_all = all((ROOT / "harness" / f"shim_{c['container']}.c").exists() and
+                   any((f"-- container: {c['container']}\n") in q.read_text() for q in (lean / "Driver").glob("*.lean"))
+                   for c in P["streams"])
+    if not (have_thm and have_all) or pid in props.HOLD:
+        continue
     checks.append(dict(
         property_id=pid,
         quick_cmd=f"./check {pid} --tier quick",
@@ -22,7 +29,8 @@ for pid in allp:
         level_note=P["level_note"],
         technique=P.get("technique", "Lean 4 theorems over a hand-written executable model; model tied to the C code by a differential correspondence check (C vs spec vs model) on every run"),
     ))
-na = [dict(property_id=p, reason=props.NOT_APPLICABLE.get(p, "not yet claimed: model and theorems for this property are still under construction")) for p in allp if p not in props.PROPS]
+claimed = {c["property_id"] for c in checks}
+na = [dict(property_id=p, reason=props.NOT_APPLICABLE.get(p, "not yet claimed: model and theorems for this property are still under construction")) for p in allp if p not in claimed]
 man = dict(
     version=1,
     setup_cmd="cd /verif/lean && lake build 2>&1 | tail -3",
